@@ -26,7 +26,7 @@ SPEC = {
     "shards": {"quick": 16, "thorough": 16},
     "min_counts": {"quick": {"evaluations": 1000, "yields_checked": 5000, "loops_checked": 1500, "removed_checked": 1000,
                              "untouched_checked": 1000, "nested_loops": 300, "later_passes": 500,
-                             "reused_populate_objects": 200, "snapshots_taken": 200}},
+                             "reused_populate_objects": 200, "snapshots_taken": 200, "uformat_destinations": 300}},
     "assumptions": [
         "pre-existing explicit defaults of z that the body leaves alone may stay or be removed (only content is compared for them)",
         "bodies that break / raise are judged on WF and RC only",
@@ -88,6 +88,8 @@ def generate(rng, tier, shard, nshards, mon):
                 "stop": rng.choice([None] * 8 + ["break", "raise"]), "at": rng.randint(0, 3),
                 # the same destination driven through several loops; the populate object may be built once and reused;
                 # a snapshot (Tensor.fromFiber on the owned root) may be taken between two loops
+                # declared formats of the destination's ranks (what stays behind must not depend on them)
+                "zfmts": [rng.choice("CU") for _ in range(depth)] if rng.random() < 0.3 else None,
                 "passes": rng.choice([1, 1, 2, 3]), "hoist": rng.random() < 0.5, "snapshot": rng.random() < 0.5}
         yield case
 
@@ -128,7 +130,9 @@ def run_case(case, mon):
     if case["own"] == "free":
         zt, z = None, gen.fiber_from_spec(case["z"], d, shape=shape[0])
     else:
-        zt = gen.tensor_from_spec(case["z"], ids, shape=shape, default=d)
+        zt = gen.tensor_from_spec(case["z"], ids, shape=shape, default=d, fmts=case.get("zfmts"))
+        if case.get("zfmts") and "U" in case["zfmts"]:
+            mon.count("uformat_destinations")
         z = zt.getRoot()
     # source
     at, fmts = None, ["C"] * depth
